@@ -1,6 +1,6 @@
 (* ReferenceTuple, Reference, NamableReference, NamedReference: parse / print / compare / hash; validation against a
    converter; a triples row.  pydantic (frozen models, JSON) and csv are runtime.  No proofs here. *)
-From Curies.model Require Export Query Spec CheckQ.
+From Curies.model Require Export Query Spec CheckQ Csv.
 
 Inductive rclass := CTuple | CRef | CNamable | CNamed.
 Record reference := { rf_cls : rclass; rf_prefix : str; rf_id : str; rf_name : option str }.
@@ -58,6 +58,18 @@ Definition vpair_res (r : res (str * str)) : val :=
 Definition mk (c : rclass) (p i : str) (n : option str) := {| rf_cls := c; rf_prefix := p; rf_id := i; rf_name := n |}.
 Definition classes := [CTuple; CRef; CNamable; CNamed].
 
+Definition triples_header : list str :=
+  [[115;117;98;106;101;99;116]; [112;114;101;100;105;99;97;116;101]; [111;98;106;101;99;116]]%N.     (* subject predicate object *)
+Definition triples_file_roundtrip (r1 r2 r3 : reference) : val :=
+  match csv_read TAB (csv_write_rows TAB [triples_header; triple_row r1 r2 r3]) with
+  | Some [_; row] =>
+      match row_triple row with
+      | Val l => vbool (val_eqb (VList (map (fun pi => VList [VStr (fst pi); VStr (snd pi)]) l))
+                                (VList (map (fun r => VList [VStr (rf_prefix r); VStr (rf_id r)]) [r1; r2; r3])))
+      | Raise _ => VInt 0 end
+  | _ => VInt 0       (* csv.Error (field larger than field limit), or not exactly header + one row *)
+  end.
+
 Definition model_ref_obs (p i name p2 i2 p3 i3 sep s : str) (recs : option (list record)) : val :=
   let inst := fun c => mk c p i (match c with CNamable | CNamed => Some name | _ => None end) in
   let r1 := mk CRef p i None in let r2 := mk CRef p2 i2 None in let r3 := mk CRef p3 i3 None in
@@ -85,11 +97,10 @@ Definition model_ref_obs (p i name p2 i2 p3 i3 sep s : str) (recs : option (list
                                    | Raise _ => VList [VInt 1] end)
                  | Raise _ => VSome (VList [VInt (-3)]) end
     end;
-    (* triples file round trip: rows parse back to the pairs when every prefix is colon-free *)
-    match row_triple (triple_row r1 r2 r3) with
-    | Val l => vbool (val_eqb (VList (map (fun pi => VList [VStr (fst pi); VStr (snd pi)]) l))
-                              (VList (map (fun r => VList [VStr (rf_prefix r); VStr (rf_id r)]) [r1; r2; r3])))
-    | Raise _ => VInt 0 end
+    (* triples file round trip: write_triples writes the header row and one row of three CURIEs with csv.writer (tab), read_triples
+       reads the file with csv.reader (model/Csv.v: minimal quoting, the reader's state machine, the module's field size limit), skips
+       the header and parses the three CURIEs; the pairs come back when every prefix is colon-free AND every CURIE fits csv's field limit *)
+    triples_file_roundtrip r1 r2 r3
   ].
 
 (* ---- the specification ----
@@ -134,6 +145,13 @@ Definition spec_ref_obs (p i name p2 i2 p3 i3 sep s : str) (recs : option (list 
 
 
 Definition no_colon (p : str) : bool := negb (existsb (N.eqb 58) p).
+(* the three CURIEs written to a triples file fit csv's field size limit *)
+Definition curie_fits (p i : str) : bool := (N.of_nat (length (p ++ colon ++ i)) <=? csv_field_limit)%N.
+Definition triples_fit (p i p2 i2 p3 i3 : str) : bool := curie_fits p i && curie_fits p2 i2 && curie_fits p3 i3.
+(* the observation with its last component (the triples file round trip) replaced by True *)
+Fixpoint set_last (l : list val) : list val :=
+  match l with [] => [] | [_] => [VInt 1] | x :: t => x :: set_last t end.
+Definition mask_last (o : val) : val := match o with VList l => VList (set_last l) | _ => o end.
 Definition run_refs (case obs : val) : val :=
   match case with
   | VList [VStr p; VStr i; VStr name; VList [VStr p2; VStr i2]; VList [VStr p3; VStr i3]; VStr sep; VStr s; recs] =>
@@ -144,8 +162,14 @@ Definition run_refs (case obs : val) : val :=
           let same := val_eqb m obs in
           let valid := no_colon p && no_colon p2 && no_colon p3 && negb (is_nil sep)
                        && match recs' with Some rs => strict_okb rs | None => true end in
-          let P := fun o => val_eqb o (spec_ref_obs p i name p2 i2 p3 i3 sep s recs') in   (* C15_P_model: P m on every valid case *)
-          VList [vbool same; vbool valid; vbool (P m); vbool (P obs); if same then VList [] else m]
+          let spec := spec_ref_obs p i name p2 i2 p3 i3 sep s recs' in
+          let P := fun o => val_eqb o spec in
+          (* known finding K2: a CURIE longer than csv.field_size_limit() cannot be read back by read_triples.  P_excl is the
+             predicate with exactly that clause excluded on exactly those cases (C15_P_model: P m when the CURIEs fit,
+             C15_P_model_excl: P_excl m on every valid case, C15_triples_long_refuted: the clause fails for the faithful model) *)
+          let fit := triples_fit p i p2 i2 p3 i3 in
+          let P_excl := fun o => if fit then P o else val_eqb (mask_last o) spec in
+          VList [vbool same; vbool valid; vbool (P_excl m); vbool (P obs); (if same then VList [] else m); vbool (P_excl obs)]
       end
   | _ => VList [VInt (-1)]
   end.
